@@ -46,16 +46,16 @@ func (d *c15Deleter) Delete(ctx context.Context, key []byte) error {
 }
 
 type c15Action struct {
-	Labels  []uint64          `json:"labels"`
-	Broken  [][2]interface{}  `json:"broken"`
-	Result  string            `json:"result"` // ok err panic other
-	Count   int               `json:"count"`
-	Caches  map[uint64][]string `json:"cachesAfter"`
-	Index   map[string]map[string][]string `json:"indexAfter"`
-	Order   []string          `json:"nameOrder"`
-	Mid     []string          `json:"addLabelsDuring,omitempty"`
-	midCoq  []string
-	Panic   string            `json:"panic,omitempty"`
+	Labels []uint64                       `json:"labels"`
+	Broken [][2]interface{}               `json:"broken"`
+	Result string                         `json:"result"` // ok err panic other
+	Count  int                            `json:"count"`
+	Caches map[uint64][]string            `json:"cachesAfter"`
+	Index  map[string]map[string][]string `json:"indexAfter"`
+	Order  []string                       `json:"nameOrder"`
+	Mid    []string                       `json:"addLabelsDuring,omitempty"`
+	midCoq []string
+	Panic  string `json:"panic,omitempty"`
 }
 
 func nameID(n string) uint64 {
